@@ -77,6 +77,10 @@ pub trait Container: Send + Sync {
 
     /// Read file data by key.
     ///
+    /// `offset` and `len` select a byte range of the file data; `len == 0`
+    /// means "up to the end". A range that reaches beyond the data is cut
+    /// at its end.
+    ///
     /// Returns the number of bytes read into `buf`. If the read is shorter
     /// than expected, the key is marked non-resident and
     /// `StorageError::TruncatedRead` is returned (matching Agent behavior).
@@ -103,6 +107,19 @@ pub trait Container: Send + Sync {
 
     /// Check if a key exists in the container.
     fn query(&self, key: &[u8; 16]) -> impl std::future::Future<Output = Result<bool>> + Send;
+}
+
+/// The part of `data` a `Container::read(key, offset, len, ..)` asks for.
+pub(crate) fn byte_range(data: &[u8], offset: u64, len: u32) -> &[u8] {
+    let start = usize::try_from(offset)
+        .unwrap_or(usize::MAX)
+        .min(data.len());
+    let end = if len == 0 {
+        data.len()
+    } else {
+        start.saturating_add(len as usize).min(data.len())
+    };
+    &data[start..end]
 }
 
 /// Translate a CASC error code to a `StorageError`.
